@@ -30,11 +30,15 @@ PART = ("PARTIAL proof level: the theorems cover (a) the atomic layer (emplace/e
         "(C02_flat_wire_format, C02_nested_wire_format), re-encoding of canonical PDUs (C03_flat_message_reencode, C03_nested_message_reencode), every value is rejected with "
         "the library's error or accepted and read back (C04_flat_rejections_are_library_errors, C04_flat_accept_or_reject for integer parameters), every byte string decodes to "
         "values or a decode error and truncated PDUs are rejected (C05_flat_message_total, C05_nested_message_total, *_truncation), static length = length of every encoding, "
-        "required parameters needed and sufficient (C08_flat_*, C08_nested_*). Everything else of the composite layer "
-        "(fields, dynamic-length types, explicit / bit positions, BYTE-SIZE, length keys, bit masks) is NOT a theorem: it is decided by the model/implementation correspondence on generated "
-        "ODX documents plus the property's direct oracle on the implementation. ")
+        "required parameters needed and sufficient (C08_flat_*, C08_nested_*). Further composites are theorems as 'good members' which nest to any depth "
+        "(Proofs/FieldProofs.v ff.): STATIC-FIELDs (exact and padded items), DYNAMIC-LENGTH-FIELDs, messages ending in an END-OF-PDU-FIELD, structures with BYTE-SIZE, "
+        "LINEAR leaves, RESERVED parameters, one-byte bit fields, PHYS-CONST and LEADING-LENGTH leaves, and MULTIPLEXERs (C01_multiplexer_member, C02_multiplexer_bytes: a case "
+        "selected by name writes its lower limit as switch key followed by the content, and reads back as case name + content); C05 totality for messages with lists and "
+        "multiplexers (C05_message_with_fields_total). NOT theorems: end-marker fields, MIN-MAX / PARAM-LENGTH types, explicit byte positions and bit positions beyond the "
+        "one-byte bit field, length keys, bit masks, MATCHING-REQUEST parameters, multiplexer cases selected by number / default cases: these are decided by the "
+        "model/implementation correspondence on generated ODX documents plus the property's direct oracle on the implementation. ")
 CODEC_NOTE = TB + ("Model scope: strict mode; int/bytefield/string base types (no floats), STANDARD/MIN-MAX/LEADING-LENGTH/PARAM-LENGTH types, IDENTICAL and integer "
-        "LINEAR compu, structures, 4 field kinds, 7 parameter kinds; multiplexer, tables, DTC, env-data, floats and real-valued physical types are not modelled: hand-written ODX documents exercise them against direct oracles only (codec_checks.py UNMODELLED_DOC, UNMODELLED_DOC2, REAL_DOPS, the float document, snoop telegram sequences). String codecs re-implemented in Gallina; "
+        "LINEAR compu, structures, 4 field kinds, multiplexers, 7 parameter kinds; tables, DTC, env-data, floats and real-valued physical types are not modelled: hand-written ODX documents exercise them against direct oracles only (codec_checks.py UNMODELLED_DOC, UNMODELLED_DOC2, REAL_DOPS, the float document, snoop telegram sequences). String codecs re-implemented in Gallina; "
         "bitstruct modelled as shift/mask arithmetic. Own ODX emitter and generators are trusted for coverage. ")
 CHECKS.update({
  "C01": (PART + "Oracle: decode(encode(v)) returns v plus defaults/constants and reads the whole PDU.", CODEC_NOTE,
@@ -69,9 +73,9 @@ CHECKS["C06"] = ("Coq theorems for all entry sets / messages: the prefix tree fi
     TB + "Coding objects' decoders are the codec model (scope as in C01-C05). Known findings: empty-constant-prefix, sibling-coding-object-fails.",
     "Rocq/Coq proof (trie induction, exactness of candidate filtering) + correspondence", "DESIGN.md §3 C06")
 CHECKS["C09"] = ("Coq theorems for every hierarchy / layer / fuel: unique names, local override, every visible object is local or inherited from a parent and not excluded, every non-excluded parent name is visible; the object seen under an inherited name comes through a parent of maximal priority among the exposing parents and all exposing parents of that priority expose the same object (else not IOk: a conflict is reported); priority table obligation regenerated from source. "
-    "Model (transcription of _compute_available_objects incl. dictionary order, priority comparison through the parent, conflict test) tied to loaded ODX hierarchies by correspondence for 5 categories plus an independent declarative visibility oracle "
+    "Model (transcription of _compute_available_objects incl. dictionary order, priority comparison through the parent, conflict test) tied to loaded ODX hierarchies by correspondence for 8 categories (diag comms, data objects, structures, multiplexers, tables, global negative responses, functional classes, audiences) plus an independent declarative visibility oracle "
     "and decode of an inherited service.",
-    TB + "The converse (C09_conflict_only_when_real: a conflict is reported only if a parent's view is in conflict or two parents of equal priority expose different objects under a name the layer does not define) and the priority order of the parents (sort_desc is a sorted permutation) are theorems too. Categories not generated: tables, state charts.",
+    TB + "The converse (C09_conflict_only_when_real: a conflict is reported only if a parent's view is in conflict or two parents of equal priority expose different objects under a name the layer does not define) and the priority order of the parents (sort_desc is a sorted permutation) are theorems too; C09_exclusion_lists_routed: the (data dictionary list -> NOT-INHERITED list) table regenerated from hierarchyelement.py equals the ODX prescription. Categories not generated: state charts, the remaining DDD lists (covered by the routing obligation only).",
     "Rocq/Coq proof (dictionary invariant by induction over parent refs) + correspondence + declarative oracle", "DESIGN.md §3 C09")
 CHECKS["C15"] = ("Coq theorems: protocol-specific definition before generic (any instance list), value defaults; refutation of the pre-fix first-hit lookup; for every hierarchy and layer: keys (specification, protocol) are unique, a local definition wins, otherwise the parent folded in last (ascending priority order) which knows the key wins and ignorant parents change nothing. Model of the (spec, protocol)-keyed override through the hierarchy, get_comparam, get_value, get_subvalue tied to loaded hierarchies by correspondence; "
     "oracle: declarative override, specific-first lookup, default fallback, typed accessors equal the numeric content.",
